@@ -7,6 +7,21 @@
         predicates for the characters of this input, as computed by the real
         functions on the Rust side; characters not listed have flags 0
       → `done kind,start,end;kind,start,end;…` | `panic` | `hang` | `bad-utf8`
+    c06 parse <hex utf-8 source | -> <table | -> <lits | ->
+        the Lean PARSER model (`Model/Parse.lean`) on the source. lits = literal
+        verdicts `L:<start>:<stop>:-` (decodes) / `L:<start>:<stop>:<Kind>:<a>:<b>`
+        (the decoder's error: kind, absolute location) / `L:<start>:<stop>:<Kind>:rel:<a>:<b>`
+        (a string literal's escape error: the escaper's own range, relative to the content),
+        `F:…` for f-string text parts (`F:<start>:<stop>:<Kind>:rel:<j>:<a>:<b>`: the escaper's
+        range relative to piece `j` of the text)
+      → `ok <sexp> | <spans>` | `err <Kind> <start> <end> <hint> | <spans>`
+        | `need L|F <start> <stop>` (no verdict in the table for this literal)
+        | `panic` | `fuel` | `bad-utf8`
+    c06 parsesig <hex utf-8 source | -> <table | ->
+        the model of `Parser::parse_signature` (`fn[T, …](type, …) -> type`); same answers as `parse`
+        with the tree `(Signature <k> (Params type*) (Ret type)?)` (no literal is ever decoded)
+    c06 fpieces <hex text>
+      → `pieces p:q,p:q,…`  the pieces `unescape_f_string_part` decodes one by one, by the model
     c06 crange <hex source | -> <start> <end>
       → `ok <a> <b>` | `panic`
     c06 cycle <old|fixed> <defs> <order: i,j,… | ->
@@ -18,6 +33,7 @@
 -/
 import RotoV.Model.Lexer
 import RotoV.Model.TypeCycle
+import RotoV.Model.Parse
 import Driver.Util
 
 namespace Driver.C06
@@ -60,10 +76,109 @@ def decode (hex : String) : Option (List Char) :=
 def showToks (ts : List OutTok) : String :=
   ";".intercalate (ts.map fun t => s!"{t.kind.name},{t.start},{t.stop}")
 
+/-! parser requests -/
+open RotoV.Parse in
+def kindOfName : String → Option EKind
+  | "EndOfInput" => some .endOfInput
+  | "FailedToParseEntireInput" => some .failedToParseEntireInput
+  | "InvalidToken" => some .invalidToken
+  | "Expected" => some .expected
+  | "InvalidLiteral" => some .invalidLiteral
+  | "Custom" => some .custom
+  | _ => none
+
+open RotoV.Parse in
+def kindName' : EKind → String
+  | .endOfInput => "EndOfInput"
+  | .failedToParseEntireInput => "FailedToParseEntireInput"
+  | .invalidToken => "InvalidToken"
+  | .expected => "Expected"
+  | .invalidLiteral => "InvalidLiteral"
+  | .custom => "Custom"
+  | .needLit _ _ _ => "NeedLit"
+
+/-- one literal verdict: (is f-string part, start, stop, error); the error's range is
+ABSOLUTE (`isRel = false`: what the real parser reported) or RELATIVE to the content of
+the string literal (`isRel = true`: what the escaper itself reported) -/
+abbrev LitEntry := Bool × Nat × Nat × Option (RotoV.Parse.EKind × RotoV.Lex.Span × Bool × Nat)
+
+def parseLits (s : String) : Option (List LitEntry) :=
+  if s = "-" then some [] else
+  (s.splitOn ",").foldr (fun e acc =>
+    match acc with
+    | none => none
+    | some l =>
+      let cls? : Option (Bool × List String) := match e.splitOn ":" with
+        | "L" :: r => some (false, r)
+        | "F" :: r => some (true, r)
+        | _ => none
+      match cls? with
+      | none => none
+      | some (f, [a, b, "-"]) =>
+        match a.toNat?, b.toNat? with
+        | some a, some b => some ((f, a, b, none) :: l)
+        | _, _ => none
+      | some (f, [a, b, k, x, y]) =>
+        match a.toNat?, b.toNat?, kindOfName k, x.toNat?, y.toNat? with
+        | some a, some b, some k, some x, some y => some ((f, a, b, some (k, (x, y), false, 0)) :: l)
+        | _, _, _, _, _ => none
+      | some (f, [a, b, k, "rel", x, y]) =>
+        match a.toNat?, b.toNat?, kindOfName k, x.toNat?, y.toNat? with
+        | some a, some b, some k, some x, some y => some ((f, a, b, some (k, (x, y), true, 0)) :: l)
+        | _, _, _, _, _ => none
+      | some (f, [a, b, k, "rel", j, x, y]) =>
+        match a.toNat?, b.toNat?, kindOfName k, j.toNat?, x.toNat?, y.toNat? with
+        | some a, some b, some k, some j, some x, some y => some ((f, a, b, some (k, (x, y), true, j)) :: l)
+        | _, _, _, _, _, _ => none
+      | _ => none) (some [])
+
+/-- the literal oracle of one request: no entry = "need this verdict". The table carries
+the ABSOLUTE location of a decoding error (what the real parser reports); the model wants
+the escaper's range RELATIVE to the text it was given (content of a string literal, piece
+`j` of an f-string text) and redoes the parser's arithmetic on it. -/
+def litOracle (src : List Char) (tbl : List LitEntry) (f : Bool) (s e : Nat) :
+    Option (RotoV.Parse.EKind × Nat × Nat × Nat) :=
+  match tbl.find? (fun x => x.1 == f && x.2.1 == s && x.2.2.1 == e) with
+  | none => some (.needLit f s e, 0, 0, 0)
+  | some x =>
+    match x.2.2.2 with
+    | none => none
+    | some (k, (a, b), true, j) => some (k, j, a, b)
+    | some (k, (a, b), false, _) =>
+      if f then
+        let t := RotoV.Parse.textOf src (s, e)
+        let ps := RotoV.Parse.pieces t
+        -- the last piece that starts at or before the error
+        let j := ((List.range ps.length).filter fun i => s + (ps.getD i (0, 0)).1 ≤ a).getLast?.getD 0
+        let base := s + (RotoV.Parse.pieceOf t j).1
+        some (k, j, a - base, b - base)
+      else some (k, 0, a - (s + 1), b - (s + 1))
+
+open RotoV.Parse in
+partial def showSx : Sx → String
+  | .a s => s
+  | .n tag [] => "(" ++ tag ++ ")"
+  | .n tag kids => "(" ++ tag ++ " " ++ " ".intercalate (kids.map showSx) ++ ")"
+
+def showSpans (l : List RotoV.Lex.Span) : String :=
+  if l.isEmpty then "-" else ",".intercalate (l.map fun sp => s!"{sp.1}:{sp.2}")
+
+open RotoV.Parse in
+def showOut : Out → String
+  | .tree t sp => "ok " ++ showSx t ++ " | " ++ showSpans sp
+  | .error e sp =>
+    match e.kind with
+    | .needLit f a b => s!"need {if f then "F" else "L"} {a} {b}"
+    | k =>
+      let hint := match e.hint with | some h => s!"{h.1}:{h.2}" | none => "-"
+      s!"err {kindName' k} {e.span.1} {e.span.2} {hint} | " ++ showSpans sp
+  | .panic => "panic"
+  | .fuel => "fuel"
+
 /-! cycle-check requests -/
 open RotoV.TypeCycle in
 mutual
-partial def pTy : List Char → Option (Ty × List Char)
+partial def pTy : List Char → Option (RotoV.TypeCycle.Ty × List Char)
   | 'l' :: r => some (.leaf, r)
   | 'u' :: r => some (.unresolved, r)
   | 'v' :: r =>
@@ -126,6 +241,24 @@ def handle (args : List String) : String :=
       | .hang => "hang"
     | none, _ => "bad-utf8"
     | _, none => "bad-op"
+  | ["parse", hex, tbl, lits] =>
+    match decode hex, parseTable tbl, parseLits lits with
+    | some src, some t, some l =>
+      showOut (RotoV.Parse.parse
+        ⟨src, mkPreds t, litOracle src l, RotoV.Gen.ParseFacts.almostKeywords.map String.toList⟩)
+    | none, _, _ => "bad-utf8"
+    | _, _, _ => "bad-op"
+  | ["parsesig", hex, tbl] =>
+    match decode hex, parseTable tbl with
+    | some src, some t =>
+      showOut (RotoV.Parse.parseSignature
+        ⟨src, mkPreds t, fun _ _ _ => none, RotoV.Gen.ParseFacts.almostKeywords.map String.toList⟩)
+    | none, _ => "bad-utf8"
+    | _, _ => "bad-op"
+  | ["fpieces", hex] =>
+    match decode hex with
+    | some t => "pieces " ++ ",".intercalate ((RotoV.Parse.pieces t).map fun p => s!"{p.1}:{p.2}")
+    | none => "bad-utf8"
   | ["crange", hex, a, b] =>
     match decode hex, a.toNat?, b.toNat? with
     | some src, some a, some b =>
